@@ -8,12 +8,14 @@ open Srv
 def refOut : List Desc → List Tok
   | [] => []
   | .garbage :: _ => []
+  | .unser false :: _ => []
   | d :: r => answer d ++ refOut r
 
 /-- calls that reach the service, in order (up to the first undecodable one) -/
 def refServed : List Desc → List Desc
   | [] => []
   | .garbage :: _ => []
+  | .unser false :: _ => [.unser false]
   | d :: r => d :: refServed r
 
 /-- The same with reply streams that hand over only `cr` results in total (items, or the end of a stream)
@@ -21,6 +23,7 @@ def refServed : List Desc → List Desc
 def refOutCredit : Nat → List Desc → List Tok
   | _, [] => []
   | _, .garbage :: _ => []
+  | _, .unser false :: _ => []
   | cr, .sub n p :: r =>
     if cr ≥ n + 1 then answer (.sub n p) ++ refOutCredit (cr - (n + 1)) r
     else ((itemsOf n p).take cr).map tokOf
@@ -29,6 +32,7 @@ def refOutCredit : Nat → List Desc → List Tok
 def refServedCredit : Nat → List Desc → List Desc
   | _, [] => []
   | _, .garbage :: _ => []
+  | _, .unser false :: _ => [.unser false]
   | cr, .sub n p :: r => .sub n p :: (if cr ≥ n + 1 then refServedCredit (cr - (n + 1)) r else [])
   | cr, d :: r => d :: refServedCredit cr r
 
@@ -65,4 +69,12 @@ def fairOK (total : Nat → Nat) (ids : List Nat) (log : List Nat) : Bool :=
       let ok := !again || ids.all fun b => b == a || servedBefore b ≥ total b || between.contains b
       ok && go fuel (before ++ [a]) rest'
   go log.length [] log
+
+/-- `SV1` runs: every caller has exactly one call waiting and the streamers' results become available before the same
+    poll; `g` = the clients in the global order of the transport writes. While a stream is open other clients are
+    still served: no streaming client is written to twice before every waiting caller has been answered. -/
+def svOK (callers streamers : List Nat) (g : List Nat) : Bool :=
+  callers.all fun b =>
+    let before := g.takeWhile (· != b)
+    streamers.all fun a => (before.filter (· == a)).length ≤ 1
 end SpecSrv
